@@ -33,7 +33,8 @@ structure EaIdeal where
   deriving DecidableEq, Repr
 
 inductive EaOp
-  | resize (nrec : Nat) (r : RecLen)
+  | resize (nrec : Nat) (r : RecLen) (fill : List UInt8)   -- grown records are written at once by the caller:
+                                                            -- contract `fill.length = nrec * r - (bytes held)`
   | append (data : List UInt8) (nrec : Nat) (r : RecLen)   -- contract: `data.length = nrec * r`
   | shrink (nrec : Nat) (r : RecLen)
   | truncate
@@ -62,8 +63,9 @@ def eaShape (i : EaIdeal) (a : EaAns) : Bool :=
 
 def eaCheck (i : EaIdeal) (a : EaAns) : Option EaIdeal := if eaShape i a then some i else none
 
-/-- growing (or cutting) to `n` bytes; new bytes are unspecified until written — 0 here -/
-def resizeBytes (l : List UInt8) (n : Nat) : List UInt8 := l.take n ++ List.replicate (n - l.length) 0
+/-- cutting to `n` bytes, or growing to `n` bytes where the caller then writes `fill` into the new part
+(the new records of `elasticarray_resize` are uninitialized, so no other reading of them is defined) -/
+def resizeBytes (l : List UInt8) (n : Nat) (fill : List UInt8) : List UInt8 := l.take n ++ fill
 
 def getBytes (l : List UInt8) (pos r : Nat) : List UInt8 := (l.drop (pos * r)).take r
 
@@ -71,10 +73,10 @@ def setBytes (l : List UInt8) (pos r : Nat) (rec : List UInt8) : List UInt8 :=
   l.take (pos * r) ++ rec ++ l.drop (pos * r + r)
 
 def eaAdmit (i : EaIdeal) : EaOp → EaAns → Option EaIdeal
-  | .resize n r, a =>
+  | .resize n r fill, a =>
     match a.st with
-    | .ok => if n * r.val ≤ SIZE_MAX ∧ a.out = none then
-        eaCheck { bytes := resizeBytes i.bytes (n * r.val), loose := false } a else none
+    | .ok => if n * r.val ≤ SIZE_MAX ∧ fill.length = n * r.val - i.bytes.length ∧ a.out = none then
+        eaCheck { bytes := resizeBytes i.bytes (n * r.val) fill, loose := false } a else none
     | .fail => if (a.refused ∨ n * r.val > SIZE_MAX) ∧ a.out = none then eaCheck i a else none
     | .oob => none
   | .append data n r, a =>
@@ -105,6 +107,14 @@ def eaAdmit (i : EaIdeal) : EaOp → EaAns → Option EaIdeal
     | .ok => if a.out = some (i.bytes, i.bytes.length / r.val) then eaCheck i a else none
     | .fail => if a.refused ∧ a.out = none then eaCheck i a else none
     | .oob => none
+
+/-- the caller's side of the contract (sizes of the buffers it passes, records it touches exist) -/
+def eaContract (i : EaIdeal) : EaOp → Prop
+  | .resize n r fill => n * r.val ≤ SIZE_MAX → fill.length = n * r.val - i.bytes.length
+  | .append data n r => n * r.val ≤ SIZE_MAX → data.length = n * r.val
+  | .get pos r => pos * r.val + r.val ≤ i.bytes.length
+  | .set pos r rec => pos * r.val + r.val ≤ i.bytes.length ∧ rec.length = r.val
+  | _ => True
 
 /-- run the monitor over a whole trace -/
 def eaAdmitAll : EaIdeal → List (EaOp × EaAns) → Option EaIdeal
